@@ -245,17 +245,30 @@ static void dump_deps(BuildEngine* e, const std::string& wd) {
     return a.first.size() != b.first.size() ? a.first.size() > b.first.size() : a.second < b.second; });
   for (size_t i = 0; i + 1 < printed.size(); i++) for (size_t j = i + 1; j < printed.size(); j++)
     if (printed[i].first == printed[j].first) { ev("deps-unavailable"); return; }       // two keys print alike: the dump is ambiguous
-  auto match = [&](size_t pos, const std::string& tail, int& id, size_t& next) {
-    for (auto& pr : printed) { std::string want = "\"" + pr.first + tail;
+  // tolerant of the dump's layout (the properties do not fix it): leading blanks, DOT escapes (\" and \\) inside the quoted keys,
+  // attributes after an edge (" [style=dashed]"), a trailing ';'
+  auto esc = [](const std::string& v) { std::string r; for (char ch : v) { if (ch == '"' || ch == '\\') r += '\\'; r += ch; } return r; };
+  auto matchq = [&](size_t pos, int& id, size_t& next) {
+    for (auto& pr : printed) for (int variant = 0; variant < 2; variant++) { std::string want = "\"" + (variant ? esc(pr.first) : pr.first) + "\"";
       if (c.compare(pos, want.size(), want) == 0) { id = pr.second; next = pos + want.size(); return true; } }
     return false; };
+  auto skipws = [&](size_t p) { while (p < c.size() && (c[p] == ' ' || c[p] == '\t')) p++; return p; };
+  auto eol = [&](size_t p) { size_t q = c.find('\n', p); return q == std::string::npos ? c.size() : q; };
   std::map<int, std::string> dl; std::vector<int> order;
   size_t pos = c.find("\n\n"); pos = pos == std::string::npos ? c.size() : pos + 2;
-  while (pos < c.size() && c[pos] != '}') {
-    int a, b; size_t nx, nx2;
+  while (pos < c.size()) {
     if (c[pos] == '\n') { pos++; continue; }
-    if (match(pos, "\" -> ", a, nx) && match(nx, "\"\n", b, nx2)) { if (!dl.count(a)) order.push_back(a); dl[a] += " " + std::to_string(b); pos = nx2; continue; }
-    if (match(pos, "\"\n", a, nx)) { pos = nx; continue; }
+    size_t p = skipws(pos);
+    if (p >= c.size() || c[p] == '}') break;
+    if (c[p] == '\n') { pos = p; continue; }
+    int a, b; size_t nx, nx2;
+    if (c[p] == '"' && matchq(p, a, nx)) {
+      size_t q = skipws(nx);
+      if (c.compare(q, 2, "->") == 0) {
+        q = skipws(q + 2);
+        if (q < c.size() && c[q] == '"' && matchq(q, b, nx2)) { if (!dl.count(a)) order.push_back(a); dl[a] += " " + std::to_string(b); pos = eol(nx2); continue; }
+      } else { pos = eol(q); continue; }       // a node line
+    }
     ev("deps-unavailable"); return;
   }
   std::sort(order.begin(), order.end());
